@@ -4,14 +4,18 @@ VARIANTS = ["san", "simd"]
 RULE = ("outdim/tjcrop: dimension formula and region validation compared with the model for boundary and random arguments; "
         "skiphist: histories of read(n) / multi-row read / skip(n) calls from a grammar biased to iMCU-row boundaries +-{0,1,2}, "
         "with and without a horizontal crop, over all subsamplings x scaling factors k/8 x fancy/merged upsampling x islow/ifast x "
-        "baseline/progressive/arithmetic, every delivered row compared with a full decode (oracle on the real decoder)")
+        "baseline/progressive/arithmetic, every delivered row compared with a full decode (oracle on the real decoder); "
+        "smoothhist: the same on progressive streams cut short inside the entropy-coded data with block smoothing active "
+        "(decompress_smooth_data, DC-only and partly refined coefficients), crops with x offset 0 and > 0 and the right edge inside the image")
 TRUSTED = ["Model.DecompCtl covers the arithmetic only; the read/skip state machine is not modelled (oracle on the real code)"]
-ASSUMPTIONS = ["block smoothing is switched off in skiphist (it legitimately depends on neighbouring iMCU rows that a skip never decodes)"]
+ASSUMPTIONS = ["block smoothing is switched off in skiphist (complete streams never use it) and on in smoothhist (streams cut short)"]
 IMAX = 2147483647
 
 
 def classify(op, R):
     p = op.split(" ")
+    if p[0] == "smoothhist":
+        return "smoothhist:cut%s:ss%s:s%s:f%s:crop%s" % (p[1], p[2], p[7], p[8], ("0" if int(p[11]) == 0 else "L" if int(p[10]) == 0 else "X"))
     if p[0] == "skiphist":
         return "skiphist:ss%s:s%s:f%s:crop%s:%s" % (p[1], p[6], p[7], int(int(p[10]) > 0), "ms" if (p[4] == "1") else "ss")
     return p[0]
@@ -62,6 +66,26 @@ def gen_ops(rng, tier):
         else:
             cx, cw = 0, 0
         ops.append("skiphist %d %d %d %d %d %d %d %d %d %d %d %s" % (ss, w, h, prog, arith, snum, fancy, dct, cx, cw, rng.randrange(1 << 20), " ".join(calls)))
+    # block smoothing: a progressive stream cut short inside its entropy-coded data (so that jdcoefct.c decompress_smooth_data produces the
+    # pixels, incl. the DC-only case), then crops with the right edge inside the image / x offset 0 / x offset > 0, reads and skips
+    for i in range(1500 if big else 260):
+        ss = rng.choice([0, 1, 2, 2, 4, 3, 5])
+        w = rng.choice([40, 48, 65, 136]); h = rng.choice([33, 40, 48, 70])
+        snum = rng.choice([8, 8, 8, 4, 16, 12, 2, 1, 7])
+        fancy = rng.randint(0, 1); arith = int(rng.random() < .2)
+        cut = rng.choice([20, 60, 150, 300, 500, 700, 900])
+        ow = (w * snum + 7) // 8; oh = (h * snum + 7) // 8
+        m = rng.random()
+        if m < .4:
+            cx, cw = 0, rng.randint(1, ow)
+        elif m < .75:
+            cx = rng.randrange(ow); cw = rng.randint(1, ow - cx)
+        else:
+            cx, cw = 0, 0
+        mcuh = {0: 8, 1: 8, 2: 16, 3: 8, 4: 16, 5: 8, 6: 32}[ss]
+        calls = ["r%d" % oh] if rng.random() < .5 else history(rng, max(1, mcuh * snum // 8), oh)
+        ops.append("smoothhist %d %d %d %d 1 %d %d %d 0 %d %d %d %s" % (cut, ss, w, h, arith, snum, fancy, cx, cw, rng.randrange(1 << 20), " ".join(calls)))
+    ops.append("smoothhist 300 0 40 40 1 0 8 1 0 12 26 628569 r200")
     # the minimised failing histories of the defects repaired in /repo (corpus)
     ops += ["skiphist 0 40 40 0 0 8 1 0 0 0 5 s7 s1 r3", "skiphist 2 40 40 0 0 8 0 0 0 0 5 r1 s20 r5",
             "skiphist 2 40 40 0 0 8 0 0 0 0 5 r3 s20 r5"]
